@@ -91,7 +91,10 @@ fn step_spread<const OBJ: bool>() {
     let mut v = visitor(opts);
     let kv = PropOrSpread::Prop(Box::new(Prop::KeyValue(KeyValueProp { key: PropName::Ident(idn("k")), value: opaque(3) })));
     let s = SpreadElement { dot3_token: sp(6), expr: if OBJ { Box::new(Expr::Object(ObjectLit { span: sp(3), props: vec![kv] })) } else { opaque(2) } };
-    let (mut st, p) = any_state();
+    let (mut st, p) = any_state_with::<false>();
+    let one_prop: bool = kani::any();
+    if one_prop { st.props.push(PropOrSpread::Prop(Box::new(Prop::KeyValue(KeyValueProp { key: PropName::Str(Str { span: DUMMY_SP, value: Atom::from("pp"), raw: None }), value: opaque(7) })))); }
+    let p = Pre { props_pp: one_prop, ..p };
     let n_props = st.props.len(); let n_merge = st.merge_args.len();
     v.x_spread_arm(&mut st, &s);
     assert!(st.has_dynamic_keys, "C13: a spread forces has_dynamic_keys (FULL_PROPS)");
@@ -114,8 +117,10 @@ fn step_spread<const OBJ: bool>() {
     }
     std::mem::forget(st); std::mem::forget(s); std::mem::forget(v);
 }
+pub fn dedupe_identity(props: Vec<PropOrSpread>) -> Vec<PropOrSpread> { props }
 macro_rules! sts { ($($n:ident: $k:expr;)*) => { $(#[kani::proof] #[kani::unwind(4)]
     #[kani::stub(std::ptr::drop_in_place, no_drop)] #[kani::stub(core::ptr::drop_glue, no_glue)] #[kani::stub(alloc::fmt::format, fmt_marker)]
+    #[kani::stub(crate::util::dedupe_props, dedupe_identity)]
     fn $n() { step_spread::<$k>() })* } }
 sts! { step_spread_expr: false; step_spread_object: true; }
 
@@ -145,12 +150,22 @@ fn assemble<const NP: u8, const NM: u8>() {
     let merge = opts.merge_props;
     let mut v = visitor(opts);
     let mk = |k: &str, n: u32| PropOrSpread::Prop(Box::new(Prop::KeyValue(KeyValueProp { key: PropName::Str(Str { span: DUMMY_SP, value: Atom::from(k), raw: None }), value: opaque(n) })));
-    let props: Vec<PropOrSpread> = match NP { 0 => Vec::new(), 1 => vec![mk("pa", 1)], 2 => vec![mk("pa", 1), mk("pb", 2)], _ => vec![PropOrSpread::Spread(SpreadElement { dot3_token: sp(6), expr: opaque(5) })] };
+    let props: Vec<PropOrSpread> = match NP { 0 => Vec::new(), 1 => vec![mk("pa", 1)], 2 => vec![mk("pa", 1), mk("pb", 2)], 4 => vec![mk("pa", 1), mk("pa", 2)], 5 => vec![mk("class", 1), mk("class", 2)],
+        _ => vec![PropOrSpread::Spread(SpreadElement { dot3_token: sp(6), expr: opaque(5) })] };
     let margs: Vec<Expr> = match NM { 0 => Vec::new(), 1 => vec![*opaque(10)], _ => vec![*opaque(10), *opaque(11)] };
     let e = v.x_assemble(props, margs);
     match (NP, NM) {
         (0, 0) => assert!(matches!(&e, Expr::Lit(Lit::Null(..))), "C01: no props at all gives null"),
         (3, 0) => assert!(is_opaque(&e, 5), "C01: a lone spread is passed as the props object itself"),
+        (4, 0) => {
+            // repeated ordinary attribute: plain last-wins object semantics when mergeProps is off (both entries kept, in order)
+            if !merge { assert!(matches!(&e, Expr::Object(o) if o.props.len() == 2 && matches!(prop_value(&o.props[0]), Some(x) if is_opaque(x, 1)) && matches!(prop_value(&o.props[1]), Some(x) if is_opaque(x, 2))), "C01: with mergeProps off repeated attributes are kept as written (last wins at runtime)"); }
+            else { assert!(matches!(&e, Expr::Object(o) if o.props.len() == 1 && prop_key_str(&o.props[0]) == Some("pa")), "C01: with mergeProps on a repeated ordinary attribute is merged statically into one entry"); }
+        }
+        (5, 0) => {
+            if !merge { assert!(matches!(&e, Expr::Object(o) if o.props.len() == 2), "C01: with mergeProps off repeated class attributes are kept as written"); }
+            else { assert!(matches!(&e, Expr::Object(o) if o.props.len() == 1 && matches!(prop_value(&o.props[0]), Some(Expr::Array(a)) if a.elems.len() == 2 && matches!(&a.elems[0], Some(x) if is_opaque(&x.expr, 1)) && matches!(&a.elems[1], Some(x) if is_opaque(&x.expr, 2)))), "C01: with mergeProps on repeated class values are merged into one array in source order"); }
+        }
         (_, 0) => assert!(matches!(&e, Expr::Object(o) if o.props.len() == NP as usize && prop_key_str(&o.props[0]) == Some("pa") && (NP < 2 || prop_key_str(&o.props[1]) == Some("pb"))), "C01: props become one object literal in source order"),
         (0, 1) => assert!(is_opaque(&e, 10), "C01: a single merge argument is used as is"),
         _ => {
@@ -165,4 +180,106 @@ fn assemble<const NP: u8, const NM: u8>() {
 macro_rules! asm { ($($n:ident: $a:expr, $b:expr;)*) => { $(#[kani::proof] #[kani::unwind(4)]
     #[kani::stub(std::ptr::drop_in_place, no_drop)] #[kani::stub(core::ptr::drop_glue, no_glue)] #[kani::stub(alloc::fmt::format, fmt_marker)]
     fn $n() { assemble::<$a, $b>() })* } }
-asm! { asm_none: 0, 0; asm_one_prop: 1, 0; asm_two_props: 2, 0; asm_lone_spread: 3, 0; asm_one_merge: 0, 1; asm_two_merge: 0, 2; asm_merge_and_props: 1, 1; asm_two_merge_and_props: 2, 2; }
+asm! { asm_none: 0, 0; asm_one_prop: 1, 0; asm_two_props: 2, 0; asm_lone_spread: 3, 0; asm_one_merge: 0, 1; asm_two_merge: 0, 2; asm_merge_and_props: 1, 1; asm_two_merge_and_props: 2, 2; asm_repeated_plain: 4, 0; asm_repeated_class: 5, 0; }
+
+/// strict reading of C13 for the bare `on` attribute (without transformOn): a dynamic `on` prop is a prop like any other
+/// and must be covered.  Isolated: the pinned code (like the Babel plugin) never records `on`.
+#[kani::proof] #[kani::unwind(3)]
+#[kani::stub(std::ptr::drop_in_place, no_drop)] #[kani::stub(core::ptr::drop_glue, no_glue)]
+#[kani::stub(crate::util::transform_text, tt_marker)] #[kani::stub(crate::util::is_jsx_attr_value_constant, const_model)] #[kani::stub(alloc::fmt::format, fmt_marker)]
+fn step_on_strict() {
+    let mut opts = any_options();
+    opts.transform_on = false;
+    let mut v = visitor(opts);
+    unsafe { CONST_ORACLE = false; }
+    let a = jsx_attr("on", Some(container(opaque(1))));
+    let (mut st, p) = any_state_with::<false>();
+    v.x_plain_arm(&mut st, &a, kani::any());
+    assert!(dp_has(&st, "on"), "C13: a dynamic `on` prop (transformOn off) is named in the dynamic-prop list like any other prop");
+    std::mem::forget(st); std::mem::forget(a); std::mem::forget(v);
+}
+
+/// directive arm (parse_directive replaced by its model): C04 html/text props, C05 v-model keys and listener, C13 effect
+/// on the analysis state == the lemma's K_DIR_* / K_VMODEL_* steps.
+fn step_dir<const PD: u8>() {
+    let comp: bool = kani::any();
+    let mut v = visitor(any_options());
+    unsafe { PD_KIND = PD; }
+    let a = jsx_attr("v-x", Some(container(opaque(1))));
+    let (mut st, p) = any_state_with::<false>();
+    let mut directives: Vec<directive::NormalDirective> = Vec::new();
+    v.x_directive_arm(&mut st, &a, comp, &mut directives);
+    assert!(st.has_ref == p.has_ref && st.has_class_binding == p.cls && st.has_style_binding == p.sty && st.has_hydration_event_binding == p.hyd && st.merge_args.is_empty(), "U-step-dir: a directive does not touch ref/class/style/hydration analysis nor the merge arguments");
+    // every dynamic-prop name is a prop actually present (C13)
+    let mut i = 0; while i < st.dynamic_props.0.len() { assert!(find_prop(&st.props, &st.dynamic_props.0[i]).is_some(), "C13: dynamic-prop list names only props actually present"); i += 1; }
+    let props = &st.props;
+    match PD {
+        0 => assert!(directives.len() == 1 && props.is_empty() && st.dynamic_props.0.is_empty() && st.has_dynamic_keys == p.dynkeys && st.slots.is_none(), "C04: a normal directive yields exactly one runtime binding, no prop, no hint change"),
+        1 | 2 => {
+            let key = if PD == 1 { "innerHTML" } else { "textContent" };
+            assert!(props.len() == 1 && matches!(find_prop(props, key), Some(e) if is_opaque(e, 9)), "C04: v-html / v-text set the innerHTML / textContent prop to the given value");
+            assert!(directives.is_empty() && st.has_dynamic_keys == p.dynkeys, "C04: v-html / v-text create no runtime directive binding");
+            assert!(dp_has(&st, key) && st.dynamic_props.0.len() == 1, "C13: innerHTML / textContent are recorded as dynamic props");
+        }
+        3 | 6 => {
+            let l = find_prop(props, "onUpdate:modelValue");
+            assert!(matches!(l, Some(Expr::Arrow(a)) if arrow_assigns_event_to(a, 9)), "C05: an `onUpdate:modelValue` listener assigns its argument to the bound target");
+            assert!(dp_has(&st, "onUpdate:modelValue") && st.has_dynamic_keys == p.dynkeys, "C13: the listener prop is recorded as dynamic prop");
+            if comp {
+                assert!(matches!(find_prop(props, "modelValue"), Some(e) if is_opaque(e, 9)) && dp_has(&st, "modelValue"), "C05: component v-model passes the value as `modelValue` (recorded as dynamic prop)");
+                assert!(directives.is_empty(), "C05: component v-model creates no directive binding");
+                if PD == 6 { assert!(find_prop(props, "modelModifiers").is_some(), "C05: modifiers are passed as `modelModifiers`"); }
+            } else {
+                assert!(directives.len() == 1 && &*directives[0].name == "model" && is_opaque(&directives[0].value, 9), "C05: element v-model attaches the model directive with the bound value");
+            }
+        }
+        5 => {
+            assert!(st.has_dynamic_keys, "C13: a computed v-model argument forces FULL_PROPS");
+            let mut found = false; let mut i = 0;
+            while i < props.len() {
+                if let PropOrSpread::Prop(pr) = &props[i] { if let Prop::KeyValue(KeyValueProp { key: PropName::Computed(ck), value }) = &**pr {
+                    if let Expr::Bin(BinExpr { op: BinaryOp::Add, left, right, .. }) = &*ck.expr {
+                        if matches!(&**value, Expr::Arrow(..)) { found = true; assert!(is_strlit(left, "onUpdate:") && is_opaque(right, 8), "C05: the computed listener key is `onUpdate:` + <argument>"); }
+                    }
+                } }
+                i += 1;
+            }
+            assert!(found, "C05: a listener prop with a computed key is generated for a computed argument");
+        }
+        7 => assert!(matches!(&st.slots, Some(e) if is_opaque(e, 7)) && props.is_empty() && directives.is_empty(), "C03: v-slots yields the slots expression and no prop"),
+        _ => assert!(st.slots.is_none() && props.is_empty() && directives.is_empty(), "C03: v-slots without a usable value yields nothing"),
+    }
+    kani::cover!(comp, "component host reachable");
+    kani::cover!(!comp, "element host reachable");
+    std::mem::forget(st); std::mem::forget(a); std::mem::forget(directives); std::mem::forget(v);
+}
+fn arrow_assigns_event_to(a: &ArrowExpr, target: u32) -> bool {
+    let p_ok = a.params.len() == 1 && matches!(&a.params[0], Pat::Ident(b) if &*b.id.sym == "$event");
+    let b_ok = match &*a.body { BlockStmtOrExpr::Expr(e) => match &**e {
+        Expr::Assign(AssignExpr { left: AssignTarget::Simple(SimpleAssignTarget::Paren(p)), right, .. }) => is_opaque(&p.expr, target) && matches!(&**right, Expr::Ident(i) if &*i.sym == "$event"),
+        _ => false }, _ => false };
+    p_ok && b_ok
+}
+macro_rules! std_h { ($($n:ident: $k:expr;)*) => { $(#[kani::proof] #[kani::unwind(3)]
+    #[kani::stub(std::ptr::drop_in_place, no_drop)] #[kani::stub(core::ptr::drop_glue, no_glue)]
+    #[kani::stub(crate::directive::parse_directive, pd_model)] #[kani::stub(alloc::fmt::format, fmt_marker)]
+    fn $n() { step_dir::<$k>() })* } }
+std_h! { step_dir_normal: 0; step_dir_html: 1; step_dir_text: 2; step_vmodel_plain: 3; step_vmodel_computed: 5; step_vmodel_nullarg: 6; step_slots_some: 7; step_slots_none: 8; }
+
+/// spread arm, hint effect only (cheap variant of U-step-spread for the quick tier): EVERY spread forces has_dynamic_keys,
+/// whatever the options and whatever the spread argument is (C13: spread props always carry FULL_PROPS).
+fn step_spread_flag<const OBJ: bool>() {
+    let mut v = visitor(any_options());
+    let kv = PropOrSpread::Prop(Box::new(Prop::KeyValue(KeyValueProp { key: PropName::Ident(idn("k")), value: opaque(3) })));
+    let s = SpreadElement { dot3_token: sp(6), expr: if OBJ { Box::new(Expr::Object(ObjectLit { span: sp(3), props: vec![kv] })) } else { opaque(2) } };
+    let mut st = AttrState::initial();
+    st.has_dynamic_keys = false;
+    v.x_spread_arm(&mut st, &s);
+    assert!(st.has_dynamic_keys, "C13: a spread forces has_dynamic_keys (FULL_PROPS)");
+    std::mem::forget(st); std::mem::forget(s); std::mem::forget(v);
+}
+macro_rules! stf { ($($n:ident: $k:expr;)*) => { $(#[kani::proof] #[kani::unwind(4)]
+    #[kani::stub(std::ptr::drop_in_place, no_drop)] #[kani::stub(core::ptr::drop_glue, no_glue)] #[kani::stub(alloc::fmt::format, fmt_marker)]
+    #[kani::stub(crate::util::dedupe_props, dedupe_identity)]
+    fn $n() { step_spread_flag::<$k>() })* } }
+stf! { step_spread_flag_expr: false; step_spread_flag_object: true; }
